@@ -148,6 +148,76 @@ def eval_comprehension(I: Interp, node, fr: Frame, kind):
     return SV(smt.mk_ref(r), T.DICT(key.ty, val.ty))
 
 
+def eval_next(I: Interp, arg, default, fr: Frame, node=None):
+    """next((elt for x in it if cond), default): the element of the first item satisfying the filter, else the default.
+    (next() without a default on an exhausted generator raises StopIteration: an obligation.)"""
+    st = I.st
+    if not (isinstance(arg, PIter) and arg.kind == "genexp"):
+        raise Refuse("next() of something other than a generator expression")
+    gnode, gfr = arg.a
+    if len(gnode.generators) != 1:
+        raise Refuse("nested generator in next()")
+    g = gnode.generators[0]
+    cf = Frame(gfr.module, gfr.cls, gfr.selfv, gfr.finfo, gfr, gfr.contract, gfr.depth)
+    seq = to_seq(I, I.ev(g.iter, gfr))
+    K = st.cfg.get("unroll")
+    if (seq.concrete is not None or K) and not st.spec_depth and not st.guards:
+        items = seq.concrete
+        if items is None:
+            st.assume(seq.n <= K)
+            items = []
+            for j in range(K):
+                if not st.branch(z3.IntVal(j) < seq.n):
+                    break
+                items.append(seq.item(z3.IntVal(j)))
+        for v in items:
+            _bind(I, g.target, v, cf)
+            ok = True
+            for c in g.ifs:
+                if not st.branch(I.truthy(I.ev(c, cf))):
+                    ok = False
+                    break
+            if ok:
+                return I.ev(gnode.elt, cf)
+        if default is None:
+            st.oblige("safety", "next_exhausted", z3.BoolVal(False), getattr(node, "lineno", 0))
+            from .interp import PathEnd
+            raise PathEnd()
+        return default
+    # symbolic length: position p of the first match (if any)
+    st.n_fresh += 1
+    iv = z3.Int(f"nx!{st.n_fresh}")
+    p = st.fresh("next_pos", smt.I)
+
+    def cond_at(ix):
+        st.binder_asms.append([])
+        st.spec_depth += 1
+        try:
+            _bind(I, g.target, seq.item(ix), cf)
+            c_ = z3.BoolVal(True)
+            for c in g.ifs:
+                c_ = z3.And(c_, I.truthy(I.ev(c, cf)))
+            elt = I.to_sv(I.ev(gnode.elt, cf))
+        finally:
+            st.spec_depth -= 1
+            asms = st.binder_asms.pop()
+        return c_, elt, asms
+    c_iv, _e, asms = cond_at(iv)
+    for a in asms:
+        st.assume(z3.ForAll([iv], z3.Implies(z3.And(iv >= 0, iv < seq.n), a)))
+    found = st.branch(z3.Exists([iv], z3.And(iv >= 0, iv < seq.n, c_iv)))
+    if found:
+        c_p, elt_p, asms_p = cond_at(p)
+        st.assume(z3.And(p >= 0, p < seq.n, c_p, *asms_p))
+        st.assume(z3.ForAll([iv], z3.Implies(z3.And(iv >= 0, iv < p), z3.Not(c_iv))))
+        return elt_p
+    if default is None:
+        st.oblige("safety", "next_exhausted", z3.BoolVal(False), getattr(node, "lineno", 0))
+        from .interp import PathEnd
+        raise PathEnd()
+    return default
+
+
 def eval_any_all(I: Interp, which, arg, fr: Frame, node=None):
     st = I.st
     if isinstance(arg, PIter) and arg.kind == "genexp":
